@@ -14,12 +14,17 @@
      16 nibbles, every single error corrected, every double error rejected); the stored cell of a byte is its
      character under odd parity and bit reversal, 0 otherwise; Reverse8 is an involution; for every entry of
      teletextCharsets the national option substitution touches exactly the 13 positions;
-   - codecs: data-unit splitting, packet address and page header round trips; the row parser returns exactly the
-     runs of every structured row (junk before the box, one or more start boxes, segments introduced by
-     colour/size codes, end box + junk or none);
+   - codecs: data-unit splitting (a truncated last unit is dropped), packet address and page header round trips; the
+     row parser returns exactly the runs of every structured row: cells (incl. attributes) in front of the box, one or
+     more start boxes, then alternating groups of colour/size attributes and of other cells (characters give text, the
+     other control codes none), end box + junk or none.  A group whose attributes change the style in force ends
+     the run before it; a repetition of the colour in force does not.  Cells failing parity are stored as 0x00 =
+     attribute black: C06_flipped_bit, C06_damaged_row_unit, C06_row_parity_error;
    - stream level (C06_stream_page_given / C06_stream_page_auto): for every ground-truth schedule and every
-     multiplexing in the decidable class mux_ok (mux_ok_auto), however the units are packed into PES packets, the
-     reader returns exactly cues_of schedule: one cue per instance with rows, from its presentation time to the
+     multiplexing in the decidable class mux_ok (mux_ok_auto), however the units are packed into PES packets and
+     whatever PES-level noise is delivered with them (packets without time: dropped altogether; empty payloads and
+     payloads with a data identifier outside 0x10..0x1f: only their time counts towards the first/last presentation
+     time; a truncated last unit: dropped), the reader returns exactly cues_of schedule: one cue per instance with rows, from its presentation time to the
      next instance's / the last presentation time, relative to the first; rows in row order, text in the page's
      national character set, runs split at colour and size codes.  The class allows, between and around our
      packets: non-subtitle/stuffing units, wrong framing codes, short units, uncorrectable addresses; corrected
@@ -32,8 +37,8 @@
    - totality: for every delivered list of arbitrary bytes and times the reader returns a value (never panics).
    Side conditions (in mux_ok): rows of an instance have distinct numbers; each row is a rowspec_ok structure;
    X/28 and M/29 packets of the selected magazine that designate a non-default character set are outside the class (the
-   reader then decodes every page with the LAST designation of the stream: see notes/C06.md); parity-failing cells
-   are covered by the cell theorems and the correspondence, not by the run-level statement. *)
+   reader then decodes every page with the LAST designation of the stream: see notes/C06.md); after the end box no
+   attribute or start box (an attribute there restyles the last boxed run; see notes). *)
 From Coq Require Import List ZArith NArith Bool.
 From Astisub Require Import Kit.Base Kit.Str Gen.TtxTables Model.TtxRow Model.Ttx Model.TtxSpec.
 From Astisub Require Import Proofs.TtxTables Proofs.TtxTotal Proofs.TtxRowProofs Proofs.TtxCodec Proofs.TtxSteps Proofs.TtxStream Proofs.TtxWitness.
@@ -84,6 +89,10 @@ Print Assumptions C06_national_substitution.
 Theorem C06_units_roundtrip : forall us, ttx_units (concat (map enc_unit us)) = us.
 Proof. exact units_enc. Qed.
 Print Assumptions C06_units_roundtrip.
+(* a truncated last unit (fewer than two bytes, or a length byte running past the end of the payload) is dropped *)
+Theorem C06_units_truncated : forall us g, trail_ok g = true -> ttx_units (concat (map enc_unit us) ++ g) = us.
+Proof. exact units_enc_trail. Qed.
+Print Assumptions C06_units_truncated.
 (* magazine, packet number and payload of an encoded packet are decoded as sent *)
 Theorem C06_packet_roundtrip : forall fl mag pkt payload, addr_ok mag pkt = true ->
   unit_addr (3, enc_packet fl mag pkt payload) = Some (mag, pkt, payload).
@@ -99,8 +108,29 @@ Theorem C06_row : forall (c : list str) (r : rowspec), length c = 96%nat -> rows
   ttx_parse_row c (row_cells r) = Ok (row_runs c r).
 Proof. intros c r Hc Hr. exact (parse_row_encoded c Hc r Hr). Qed.
 Print Assumptions C06_row.
-Example C06_row_example : rowspec_ok ex_row1 = true /\ rowspec_ok ex_row2 = true /\ length (row_cells ex_row1) = 40%nat.
+Example C06_row_example : rowspec_ok ex_row1 = true /\ rowspec_ok ex_row2 = true /\ length (row_cells ex_row1) = 40%nat
+  /\ rowspec_ok ex_row1_damaged = true /\ map sym_cell ex_syms = row_cells ex_row1_damaged.
 Proof. repeat split; vm_compute; reflexivity. Qed.
+
+(* parity failures.  A character byte with any one bit flipped is stored as 0; a row with damaged bytes is "our row"
+   with 0 in the damaged cells, so it lies in the class of the stream theorems with the rowspec of its stored cells; and
+   a damaged character cell reads as the attribute black: no run contains that character, the group is cut in two *)
+Theorem C06_flipped_bit : forall ch k, ch < 128 -> k < 8 -> cell0 (N.lxor (par_enc ch) (2 ^ k)) = 0.
+Proof. exact flipped_bit_cell. Qed.
+Print Assumptions C06_flipped_bit.
+Theorem C06_damaged_row_unit : forall fl mag0 row syms extra, 1 <= mag0 <= 8 -> 1 <= row <= 25 ->
+  length syms = 40%nat -> forallb sym_ok syms = true ->
+  is_our_row mag0 row (map sym_cell syms) (3, enc_packet fl mag0 row (map sym_byte syms ++ extra)) = true.
+Proof. exact damaged_row_unit_is_ours. Qed.
+Print Assumptions C06_damaged_row_unit.
+Theorem C06_row_parity_error : forall (c : list str) pre boxes a cs x1 v x2 b e, length c = 96%nat ->
+  rowspec_ok (mkRowspec pre boxes (a ++ mkRseg cs (x1 ++ v :: x2) :: b) e) = true ->
+  let r := mkRowspec pre boxes (a ++ mkRseg cs (x1 ++ v :: x2) :: b) e in
+  let r' := mkRowspec pre boxes (a ++ mkRseg cs x1 :: mkRseg [0] x2 :: b) e in
+  exists l1 l2, row_cells r = l1 ++ v :: l2 /\ row_cells r' = l1 ++ 0 :: l2
+                /\ ttx_parse_row c (l1 ++ 0 :: l2) = Ok (row_runs c r').
+Proof. exact parity_error_in_text. Qed.
+Print Assumptions C06_row_parity_error.
 
 (* ---- stream level ---- *)
 (* the reader is given the page *)
